@@ -380,7 +380,7 @@ def make_history(rng, n_steps, items, rewrites=2):
         elif r < 0.24:
             steps.append({"op": "optimize", "q": q, "v": v, "fuse": rng.random() < 0.6})
         elif r < 0.62:
-            steps.append({"op": "observe", "q": q, "v": v, "what": rng.choice([["result"], ["result", "divisions"], ["name", "divisions", "len"], ["result", "len"]]),
+            steps.append({"op": "observe", "q": q, "v": v, "what": rng.choice([["result"], ["result", "divisions"], ["divisions", "result"], ["name", "divisions", "len"], ["len", "result"], ["meta", "result"]]),
                           "via": rng.choice(["fresh", "fresh", "handle"])})
         elif r < 0.72 and sp.flags(q).get("fail_tag"):
             steps.append({"op": "fail", "q": q, "v": v})
@@ -389,7 +389,7 @@ def make_history(rng, n_steps, items, rewrites=2):
         elif r < 0.86:
             steps.append({"op": "gc"})
         else:
-            steps.append({"op": "observe", "q": q, "v": v, "what": ["result", "divisions", "name"], "via": "fresh"})
+            steps.append({"op": "observe", "q": q, "v": v, "what": ["divisions", "name", "result"], "via": "fresh"})
     return steps
 
 
@@ -398,7 +398,7 @@ def directed_history(rng):
     query and using the plan; every ordered pair of queries that could share a cache entry; dataset rewrites;
     failure injection."""
     steps = []
-    obs_all = ["result", "divisions", "name", "len"]
+    obs_all = ["divisions", "name", "len", "result"]
 
     def observe(q, v=None, via="fresh", what=None):
         steps.append({"op": "observe", "q": q, "v": v, "what": what or obs_all, "via": via})
@@ -432,7 +432,7 @@ def directed_history(rng):
         for a in order:
             observe(*a, what=["result", "divisions", "len"])
         for a in reversed(order):
-            observe(*a, what=["result", "divisions", "len"])
+            observe(*a, what=["divisions", "len", "result"])
         if version == 1:
             steps.append({"op": "gc"})
     # (c) failure injection
@@ -492,7 +492,8 @@ def run_history(steps, pq, ocache=None):
     sp.write_parquet(pq, 0)
     pending = []  # (step index, (q, v), observed dict, version)
     mismatches = []
-    ocache = dict(ocache or {})
+    # values of parquet queries depend on the files written by *this* session (mtime enters the checksum, hence the names)
+    ocache = {k: v for k, v in (ocache or {}).items() if k.endswith("|-")}
     known = set(ocache)
     children = 0
 
@@ -545,7 +546,7 @@ def run_history(steps, pq, ocache=None):
                 if not raised:
                     mismatches.append({"step": idx, "q": qv[0], "v": qv[1], "field": "failure-injection", "session": "no exception", "fresh": "RuntimeError"})
                 # what the failed run left behind must not change a later observation
-                obs = sp.observe(sp.build(qv[0], pq, qv[1]), ("result", "divisions"), sort_rows=bool(sp.flags(qv[0]).get("sort_rows")))
+                obs = sp.observe(sp.build(qv[0], pq, qv[1]), ("divisions", "result"), sort_rows=bool(sp.flags(qv[0]).get("sort_rows")))
                 pending.append((idx, qv, obs, version))
             elif op == "observe":
                 coll = None
@@ -566,7 +567,7 @@ def run_history(steps, pq, ocache=None):
     flush(only_parquet=False)
     nobs = sum(1 for s in steps if s["op"] in ("observe", "fail"))
     return {"observations": nobs, "mismatches": mismatches, "children": children,
-            "oracle_new": {k: v for k, v in ocache.items() if k not in known}}
+            "oracle_new": {k: v for k, v in ocache.items() if k not in known and k.endswith("|-")}}
 
 
 def _short(x, n=300):
